@@ -1108,11 +1108,19 @@ class SSHProcess(SSHStreamSession, Generic[AnyStr]):
     def feed_data(self, data: AnyStr, datatype: DataType) -> None:
         """Feed data to the channel"""
 
+        # Ignore a source which is still being read after its redirect
+        # has ended, such as when the channel has been closed
+        if datatype not in self._readers:
+            return
+
         assert self._chan is not None
         self._chan.write(data, datatype)
 
     def feed_eof(self, datatype: DataType) -> None:
         """Feed EOF to the channel"""
+
+        if datatype not in self._readers:
+            return
 
         if self._send_eof[datatype]:
             assert self._chan is not None
